@@ -30,11 +30,11 @@ Inductive kn := KRule (r : rule) | KClass (cl : rclass) | KUnknown.
 Definition kn_class (k : kn) : option rclass :=
   match k with KRule r => Some (rclass_of r) | KClass cl => Some cl | KUnknown => None end.
 
-(* markers in flight + markers registered: grows by one per OnMarker call at most *)
+(* markers in flight + markers registered: grows by exactly one per OnMarker call *)
 Definition qm (m : meth) : Z := match m with MMarker => 1 | _ => 0 end.
 Definition qeff (p : prim) : Z :=
   match p with
-  | PBeginMarkerAnyType _ | PBeginMarkerKeyable _ | PMarkObject _ => 1
+  | PBeginMarkerAnyType _ | PBeginMarkerKeyable _ | PMarkObject _ | PMarkContainer => 1
   | PUnstackRule => -1
   | PForwardCurrent m' | PForwardParent m' => qm m'
   | _ => 0
@@ -79,7 +79,7 @@ Fixpoint walk (fo : meth -> bool) (k : kn) (cell : list prim) : option kn :=
   end.
 
 Definition cell_ok (fo : meth -> bool) (k : kn) (m : meth) (cell : list prim) : bool :=
-  has_reject cell || (match walk fo k cell with Some _ => true | None => false end && (qsum cell <=? qm m)%Z).
+  has_reject cell || (match walk fo k cell with Some _ => true | None => false end && (qsum cell =? qm m)%Z).
 
 (* methods whose cells are fine when run on behalf of a marker rule (the marker entry is in force);
    such a cell may forward the same method to the parent again *)
@@ -186,7 +186,7 @@ Definition StartOK (r : rule) (m : meth) (c : rctx) : Prop :=
   e_rule (cur c) = r \/ (rclass_of (e_rule (cur c)) = KMarker /\ fpm m = true).
 Definition Post (r : rule) (m : meth) (c c' : rctx) : Prop :=
   StartOK r m c -> WF c ->
-  WF c' /\ (Q c' <= Q c + qm m)%Z /\ (e_rule (cur c) = r -> ksound (postk r m) c').
+  WF c' /\ (Q c' = Q c + qm m)%Z /\ (e_rule (cur c) = r -> ksound (postk r m) c').
 
 Lemma wf_frame c c' :
   e_rule (cur c') = e_rule (cur c) -> srules c' = srules c -> depth c' = depth c -> arr_type c' = arr_type c ->
@@ -202,7 +202,7 @@ Section Sound.
   Hypothesis Hcall : forall r m a c c', call r m a c = Some c' -> Post r m c c'.
 
   Lemma call_current_rule_sound m a c c' :
-    call (e_rule (cur c)) m a c = Some c' -> WF c -> WF c' /\ (Q c' <= Q c + qm m)%Z.
+    call (e_rule (cur c)) m a c = Some c' -> WF c -> WF c' /\ (Q c' = Q c + qm m)%Z.
   Proof. intros H W. destruct (Hcall _ _ _ _ _ H (or_introl eq_refl) W) as [W' [Q' _]]. auto. Qed.
 
   (* popping the entry in force (and telling the parent) *)
@@ -210,7 +210,7 @@ Section Sound.
     end_container_like call notify c = Some c' ->
     WFr (e_rule (cur c)) (srules c) d0 (arr_type c) ->
     depth c = d0 - (if rclass_eqb (rclass_of (e_rule (cur c))) KCont then 1 else 0) ->
-    WF c' /\ (Q c' <= Q c - (if rclass_eqb (rclass_of (e_rule (cur c))) KMarker then 1 else 0))%Z.
+    WF c' /\ (Q c' = Q c - (if rclass_eqb (rclass_of (e_rule (cur c))) KMarker then 1 else 0))%Z.
   Proof.
     unfold end_container_like, unstack_rule. intros H W D. destruct (stack c) as [|e s] eqn:S; [discriminate|].
     unfold srules in W. rewrite S in W. cbn [map] in W.
@@ -230,7 +230,7 @@ Section Sound.
   Lemma frame_sound k c c' z :
     e_rule (cur c') = e_rule (cur c) -> srules c' = srules c -> depth c' = depth c -> arr_type c' = arr_type c ->
     (Z.of_N (refcount c') = Z.of_N (refcount c) + z)%Z ->
-    ksound k c -> WF c -> WF c' /\ (Q c' <= Q c + z)%Z /\ ksound k c'.
+    ksound k c -> WF c -> WF c' /\ (Q c' = Q c + z)%Z /\ ksound k c'.
   Proof.
     intros H1 H2 H3 H4 H5 Hk W. split; [eapply wf_frame; eauto|]. split; [rewrite (q_frame c c' H1 H2); lia|].
     eapply ksound_frame; eauto.
@@ -248,18 +248,18 @@ Section Sound.
 
   Lemma tea_sound more c c2 b :
     try_end_array call more c = Some (c2, b) -> WF c -> is_arr (rclass_of (e_rule (cur c))) = true ->
-    (b = false /\ c2 = c) \/ (b = true /\ WF c2 /\ (Q c2 <= Q c)%Z).
+    (b = false /\ c2 = c) \/ (b = true /\ WF c2 /\ (Q c2 = Q c)%Z).
   Proof.
     unfold try_end_array. intros H W A. destruct more; [inv_some; left; auto|].
     destruct (end_container_like call true c) as [c1|] eqn:E; [|discriminate]. inv_some. right. split; [reflexivity|].
     apply (ecl_sound _ _ _ (depth c)) in E; [| exact W |].
-    - destruct E as [W' Q']. split; [exact W'|]. destruct (rclass_eqb (rclass_of (e_rule (cur c))) KMarker); lia.
+    - destruct E as [W' Q']. split; [exact W'|]. destruct (rclass_of (e_rule (cur c))); try discriminate A; cbn [rclass_eqb] in Q'; lia.
     - destruct (rclass_of (e_rule (cur c))); try discriminate A; cbn [rclass_eqb]; lia.
   Qed.
 
   Lemma end_chunk_sound sr c c' :
     end_chunk call sr c = Some c' -> WF c -> rclass_of (e_rule (cur c)) = (if sr then KArrS else KArrP) ->
-    WF c' /\ (Q c' <= Q c)%Z.
+    WF c' /\ (Q c' = Q c)%Z.
   Proof.
     unfold end_chunk. intros H W A.
     destruct (sr && negb (Nat.eqb (length (utf8_rem c)) 0)); [discriminate|].
@@ -275,7 +275,7 @@ Section Sound.
     WF c -> rclass_of (e_rule (cur c)) = (if sr then KArrS else KArrP) -> rclass_of r' = (if sr then KArrS else KArrP) ->
     e_rule (cur c1) = e_rule (cur c) -> srules c1 = srules c -> depth c1 = depth c -> arr_type c1 = arr_type c ->
     refcount c1 = refcount c ->
-    WF (set_rule c1 r') /\ (Q (set_rule c1 r') <= Q c)%Z.
+    WF (set_rule c1 r') /\ (Q (set_rule c1 r') = Q c)%Z.
   Proof.
     intros W A A' E1 E2 E3 E4 E5.
     destruct (WFr_setrule _ r' _ _ _ (refcount c) W) as [W' Q']; [congruence|].
@@ -285,7 +285,7 @@ Section Sound.
 
   Lemma rule_chunk_sound sr len more c c' :
     rule_chunk cfg call sr len more c = Some c' -> WF c -> rclass_of (e_rule (cur c)) = (if sr then KArrS else KArrP) ->
-    WF c' /\ (Q c' <= Q c)%Z.
+    WF c' /\ (Q c' = Q c)%Z.
   Proof.
     unfold rule_chunk. intros H W A. destruct (len =? 0).
     - destruct (try_end_array call more c) as [[c2 b]|] eqn:T; [|discriminate]. inv_some.
@@ -296,13 +296,13 @@ Section Sound.
 
   Lemma chunk_data_sound sr data c c' :
     chunk_data call sr data c = Some c' -> WF c -> rclass_of (e_rule (cur c)) = (if sr then KArrS else KArrP) ->
-    WF c' /\ (Q c' <= Q c)%Z.
+    WF c' /\ (Q c' = Q c)%Z.
   Proof.
     unfold chunk_data. intros H W A.
     assert (forall c1, e_rule (cur c1) = e_rule (cur c) -> srules c1 = srules c -> depth c1 = depth c ->
                        arr_type c1 = arr_type c -> refcount c1 = refcount c ->
-                       (WF c1 /\ (Q c1 <= Q c)%Z) /\
-                       (end_chunk call sr c1 = Some c' -> WF c' /\ (Q c' <= Q c)%Z)) as Aux.
+                       (WF c1 /\ (Q c1 = Q c)%Z) /\
+                       (end_chunk call sr c1 = Some c' -> WF c' /\ (Q c' = Q c)%Z)) as Aux.
     { intros c1 E1 E2 E3 E4 E5.
       assert (WF c1) as W1 by (eapply wf_frame; eauto).
       assert (Q c1 = Q c) as Q1 by (rewrite (q_frame c c1 E1 E2); lia).
@@ -320,7 +320,7 @@ Section Sound.
   Lemma prim_sound fo k k' self m a p c c' :
     wstep fo k p = Some k' -> (forall m', fo m' = true -> fpm m' = true) -> ksound k c -> WF c ->
     exec_prim cfg call self m a p c = Some c' ->
-    WF c' /\ (Q c' <= Q c + qeff p)%Z /\ ksound k' c'.
+    WF c' /\ (Q c' = Q c + qeff p)%Z /\ ksound k' c'.
   Proof.
     intros Hw Hfo Hk W E.
     destruct p; cbn [wstep] in Hw; cbn [qeff].
@@ -356,11 +356,11 @@ Section Sound.
       assert (forall c2, e_rule (cur c2) = e_rule (cur c) -> srules c2 = srules c -> arr_type c2 = arr_type c ->
                          depth c2 = depth c -> refcount c2 = refcount c ->
                          end_container_like call notify (set_depth c2 (depth c2 - 1)) = Some c' ->
-                         WF c' /\ (Q c' <= Q c + 0)%Z /\ ksound KUnknown c') as Aux.
+                         WF c' /\ (Q c' = Q c + 0)%Z /\ ksound KUnknown c') as Aux.
       { intros c2 E1 E2 E3 E4 E5 H. apply (ecl_sound _ _ _ (depth c)) in H.
         - destruct H as [W' Q']. split; [exact W'|]. split; [|exact I].
           replace (Q (set_depth c2 (depth c2 - 1))) with (Q c) in Q' by (unfold Q, srules in *; rsimpl; congruence).
-          destruct (rclass_eqb _ KMarker) in Q'; lia.
+          rsimpl. rewrite E1, Hc in Q'. cbn [rclass_eqb] in Q'. lia.
         - unfold srules in *. rsimpl. rewrite E1, E2, E3. exact W.
         - rsimpl. rewrite E1, Hc, E4. cbn [rclass_eqb]. reflexivity. }
       destruct (e_dtype (cur c) =? DT_RecordType).
@@ -414,7 +414,7 @@ Section Sound.
   Lemma walk_sound fo self m a cell : forall k kf c c',
     walk fo k cell = Some kf -> (forall m', fo m' = true -> fpm m' = true) -> ksound k c -> WF c ->
     exec_prims cfg call self m a cell c = Some c' ->
-    WF c' /\ (Q c' <= Q c + qsum cell)%Z /\ ksound kf c'.
+    WF c' /\ (Q c' = Q c + qsum cell)%Z /\ ksound kf c'.
   Proof.
     induction cell as [|p ps IH]; intros k kf c c' Hw Hfo Hk W E; cbn [walk exec_prims qsum fold_right] in *.
     - inv_some. split; [exact W|]. split; [lia | exact Hk].
@@ -432,7 +432,7 @@ End Sound.
 Lemma meth_beq_true a b : meth_beq a b = true -> a = b.
 Proof. apply internal_meth_dec_bl. Qed.
 
-(* every method call, entered in one of the two allowed ways, preserves the structure, adds at most
+(* every method call, entered in one of the two allowed ways, preserves the structure, adds exactly
    its marker to the markers in flight, and leaves the rule in force the analysis predicts *)
 Theorem call_rule_structure cfg f r m a c c' : call_rule f cfg r m a c = Some c' -> Post r m c c'.
 Proof.
@@ -475,7 +475,7 @@ Qed.
 
 Lemma plan_step_structure cfg pl c c' :
   plan_step cfg pl c = Some c' -> WF c ->
-  WF c' /\ (Q c' <= Q c + qm (p_meth pl))%Z /\ ksound (postk (e_rule (cur c)) (p_meth pl)) c'.
+  WF c' /\ (Q c' = Q c + qm (p_meth pl))%Z /\ ksound (postk (e_rule (cur c)) (p_meth pl)) c'.
 Proof.
   unfold plan_step, call_current. intros H W. destruct (p_nno pl) as [real|].
   - destruct (notify_new_object cfg real c) as [c1|] eqn:N; [|discriminate].
@@ -495,7 +495,7 @@ Proof.
 Qed.
 
 Lemma rstep_structure cfg c e c' o :
-  rstep cfg c e = Some (c', o) -> WF c -> WF c' /\ (Q c' <= Q c + (if is_marker e then 1 else 0))%Z.
+  rstep cfg c e = Some (c', o) -> WF c -> WF c' /\ (Q c' = Q c + (if is_marker e then 1 else 0))%Z.
 Proof.
   rewrite rstep_plan. destruct (ev_plan cfg e) as [pl|] eqn:P; [|discriminate].
   destruct (plan_step cfg pl c) as [c2|] eqn:S; [|discriminate]. intros H W; inv_some.
@@ -503,7 +503,7 @@ Proof.
 Qed.
 
 Lemma steps_structure cfg es : forall c c',
-  steps cfg c es = Some c' -> WF c -> WF c' /\ (Q c' <= Q c + Z.of_N (marker_usage es))%Z.
+  steps cfg c es = Some c' -> WF c -> WF c' /\ (Q c' = Q c + Z.of_N (marker_usage es))%Z.
 Proof.
   induction es as [|e es IH]; intros c c' H W; cbn [steps] in H.
   - inv_some. cbn. split; [exact W | lia].
@@ -533,4 +533,22 @@ Proof.
   unfold WF, WFr, srules. intros [H1 [H2 _]] T. destruct (stack c) as [|e s]; cbn [map stack_ok] in *.
   - split; [reflexivity|]. rewrite H2. unfold count_cl. cbn [filter]. rewrite T. reflexivity.
   - destruct H1 as [H1 _]. congruence.
+Qed.
+
+(* every marker event is either registered or still open: registered + open marker entries = marker events *)
+Theorem markers_accounted cfg es c :
+  state_after cfg es = Some c ->
+  (Z.of_N (refcount c) + Z.of_nat (count_cl KMarker (e_rule (cur c) :: srules c)) = Z.of_N (marker_usage es))%Z.
+Proof.
+  rewrite state_after_steps. intro H. destruct (steps_structure _ _ _ _ H WF_init) as [_ Q'].
+  assert (Q init_rctx = 0%Z) as Z0 by reflexivity. rewrite Z0 in Q'. unfold Q, Qr in Q'. lia.
+Qed.
+
+(* at document level (in particular in a complete document) every marker is registered *)
+Theorem document_markers_registered cfg es c :
+  state_after cfg es = Some c -> rclass_of (e_rule (cur c)) = KTop -> refcount c = marker_usage es.
+Proof.
+  intros H T. pose proof (markers_accounted _ _ _ H) as A. pose proof (state_WF _ _ _ H) as W.
+  destruct (WF_top c W T) as [S _]. unfold srules in A. rewrite S in A. cbn [map] in A.
+  rewrite count_cl_cons, T in A. cbn in A. lia.
 Qed.
